@@ -616,7 +616,9 @@ DesOf(c, n) == LatestResp(c).children[CHOOSE i \in DOMAIN LatestResp(c).children
 PosOf(c, n) == CHOOSE i \in DOMAIN LatestResp(c).children : LatestResp(c).children[i].name = n
 KidKey(c, n) == <<"Thing", c.parent.ns, n>>
 ObsKid(c, n) == Lookup(c.obs, KidKey(c, n))
-UpToDateK(c, n) == ObsKid(c, n).live /\ SubFn(DesOf(c, n).fields, ObsKid(c, n).fields) /\ SubFn(DesOf(c, n).labels, ObsKid(c, n).labels)
+\* up to date = applying the desired state would change nothing: content, labels AND the last-applied record
+UpToDateK(c, n) == /\ ObsKid(c, n).live /\ SubFn(DesOf(c, n).fields, ObsKid(c, n).fields) /\ SubFn(DesOf(c, n).labels, ObsKid(c, n).labels)
+                   /\ ObsKid(c, n).hasLA /\ SubFn(DesOf(c, n).fields, ObsKid(c, n).la)
 ChecksOn == \E i \in DOMAIN cfg.children : "checks" \in DOMAIN cfg.children[i] /\ cfg.children[i].checks # <<>>
 HappyK(c, n) == LET o == ObsKid(c, n) IN
   /\ ChecksOn => ("conditions.0.type" \in DOMAIN o.status /\ o.status["conditions.0.type"] = "s:Ready"
